@@ -324,6 +324,11 @@ func init() {
 		"flag.Var": func(fr *frame, a []value) value { return nil },
 		"flag.Parse": func(fr *frame, a []value) value { return nil },
 		"flag.Parsed": func(fr *frame, a []value) value { return true },
+		"github.com/grailbio/bigslice/frame.typedslicecopy": intTypedSliceCopy,
+		"github.com/grailbio/bigslice/frame.typedmemmove":   intTypedMemmove,
+		"github.com/grailbio/bigslice/internal/zero.Unsafe": intZeroUnsafe,
+		"github.com/spaolacci/murmur3.Sum32WithSeed":        intMurmur,
+		"github.com/spaolacci/murmur3.Sum32":                func(fr *frame, a []value) value { return intMurmur(fr, []value{a[0], uint32(0)}) },
 		"runtime.Caller": func(fr *frame, a []value) value { return tuple{uintptr(0), "verif.go", 1, true} },
 		"runtime.Callers": func(fr *frame, a []value) value { return 0 },
 		"runtime.NumCPU": func(fr *frame, a []value) value { return 4 },
@@ -862,4 +867,83 @@ func intFlagVar(fr *frame, a []value) value {
 func intFlagNew(fr *frame, a []value) value {
 	v := a[1]
 	return &v
+}
+
+func headerParts(v value) (uptr, int64, int64) {
+	st := v.(structure)
+	p, ok := st[0].(uptr)
+	if !ok {
+		panic(unsupported{fmt.Sprintf("slice header data %T", st[0])})
+	}
+	return p, asInt64(st[1]), asInt64(st[2])
+}
+
+func intTypedSliceCopy(fr *frame, a []value) value {
+	dst, dl, _ := headerParts(a[1])
+	src, sl, _ := headerParts(a[2])
+	n := dl
+	if sl < n {
+		n = sl
+	}
+	if n < 0 {
+		panic(wildDeref{"typedslicecopy with negative length"})
+	}
+	fr.i.memmove(dst, src, n, "typedslicecopy")
+	return int(n)
+}
+
+func intTypedMemmove(fr *frame, a []value) value {
+	fr.i.memmove(a[1].(uptr), a[2].(uptr), 1, "typedmemmove")
+	return nil
+}
+
+func intZeroUnsafe(fr *frame, a []value) value {
+	t := argType(a[0])
+	p := a[1].(uptr)
+	n := fr.i.concreteInt(a[2], 0, int64(fr.i.cfg.MaxAlloc), "zero.Unsafe n")
+	if n == 0 {
+		return nil
+	}
+	if p.cell != nil {
+		if n != 1 {
+			panic(wildDeref{"zero.Unsafe beyond a single cell"})
+		}
+		*p.cell = zero(t)
+		return nil
+	}
+	idx, ok := fr.i.elemIndex(p, n)
+	if !ok {
+		panic(wildDeref{"zero.Unsafe outside the bounds of an object"})
+	}
+	if fr.i.sizeof(t) != p.esize {
+		panic(unsupported{"zero.Unsafe element size mismatch"})
+	}
+	for k := int64(0); k < n; k++ {
+		p.base[idx+k] = zero(t)
+	}
+	return nil
+}
+
+// intMurmur models the hash as an uninterpreted function of the bytes and
+// the seed, so that results hold for any hash function.
+func intMurmur(fr *frame, a []value) value {
+	px := fr.i.px
+	bs := a[0].([]value)
+	var args []string
+	var sorts []string
+	for _, b := range bs {
+		args = append(args, toSym(b, sym{kBV, 8, ""}).t)
+		sorts = append(sorts, "(_ BitVec 8)")
+	}
+	args = append(args, toSym(a[1], sym{kBV, 32, ""}).t)
+	sorts = append(sorts, "(_ BitVec 32)")
+	key := "murmur/" + strconv.Itoa(len(bs))
+	name, ok := px.ufDecl[key]
+	if !ok {
+		name = "uf_murmur3_" + strconv.Itoa(len(bs))
+		px.ufDecl[key] = name
+		px.emit("(declare-fun " + name + " (" + strings.Join(sorts, " ") + ") (_ BitVec 32))")
+	}
+	px.stubsUsed["murmur3.Sum32WithSeed => uninterpreted function of (bytes, seed)"] = true
+	return px.mk(kBV, 32, "("+name+" "+strings.Join(args, " ")+")")
 }
